@@ -12,7 +12,7 @@ _CPP_LOCK = threading.Lock()
 
 STUBS = os.path.join(os.path.dirname(os.path.dirname(os.path.abspath(__file__))), 'stubs')
 
-RESULT_RE = re.compile(r'^\[(?P<id>[^\]]+)\]\s+(?:(?:file\s+\S+\s+)?line\s+(?P<line>\d+)\s+)?(?P<desc>.*):\s+(?P<st>SUCCESS|FAILURE|UNKNOWN|ERROR)\s*$')
+RESULT_RE = re.compile(r'^\[(?P<id>\S+)\]\s+(?:(?:file\s+\S+\s+)?line\s+(?P<line>\d+)\s+)?(?P<desc>.*):\s+(?P<st>SUCCESS|FAILURE|UNKNOWN|ERROR)\s*$')
 
 
 class ToolError(Exception):
@@ -246,12 +246,14 @@ def trace(h, r, work, timeout, mem_gb=8, tag=''):
     d = os.path.join(work, h.name + tag)
     if not r.binary or not r.failed:
         return {}, ''
-    prop = r.failed[0]['id']
+    pref = [x for x in r.failed if 'unwind' not in x['id'] and 'postcondition' not in x['id']] or [x for x in r.failed if 'unwind' not in x['id']] or r.failed
+    prop = pref[0]['id']
     cmd = ['cbmc', r.binary] + h.flags + BACKEND_FLAGS[h.backend] + ['--trace', '--json-ui', '--property', prop]
     if h.unwind is not None:
         cmd += ['--unwind', str(h.unwind)]
     rc, out, dt = run(cmd, d, timeout, mem_gb, os.path.join(d, 'trace_log.txt'))
     vals = {}
+    ints = {}
     order = []
     try:
         doc = json.loads(out)
@@ -262,12 +264,17 @@ def trace(h, r, work, timeout, mem_gb=8, tag=''):
                         if st.get('stepType') == 'assignment':
                             lhs = st.get('lhs', '')
                             v = st.get('value', {})
+                            if 'binary' in v and v.get('name') in ('integer', 'pointer', None) or ('binary' in v and 'data' in v and not re.match(r'^-?\d', str(v['data']))):
+                                try:
+                                    ints[lhs] = int(v['binary'], 2)
+                                except Exception:
+                                    pass
                             if 'data' in v:
                                 vals[lhs] = v['data']
                                 order.append((lhs, v['data'], st.get('sourceLocation', {}).get('function', '')))
     except Exception as e:
         return {}, out[:20000]
-    return {'last': vals, 'order': order}, out
+    return {'last': vals, 'order': order, 'uint': ints}, out
 
 
 def canary(h, work, timeout, mem_gb=8):
